@@ -20,6 +20,7 @@ def dispatch (j : Json) : R Json := do
   | "dump" => opDump j
   | "ws_combine" => opWsCombine j
   | "ws_sorted" => opWsSorted j
+  | "ws_prune_rename" => opWsPruneRename j
   | "events" => opEvents j
   | "grad" => opGrad j
   | "prob" => opProb j
